@@ -138,6 +138,11 @@ var paramRe = regexp.MustCompile(`\$(\d+)`)
 func (c *Ctx) bindReceiver(s string, e *TableEntry) string {
 	ts := c.readTable(pkgExpr, "toString").byKey()
 	for f, v := range structLiteralFields(e.Recv) {
+		if p := paramBehind(v); p != nil && e.RecvArg != nil {
+			if a, ok := e.RecvArg[p]; ok {
+				v = a
+			}
+		}
 		bk := c.key(v, nil)
 		name := bk
 		if te := ts[bk]; te != nil {
@@ -315,6 +320,9 @@ func ruleSQLVOCAB(c *Ctx, r *Report) {
 					name := calleeFullName(x)
 					switch name {
 					case "fmt.Sprintf":
+						if onlyErrorText(x, 0) {
+							break
+						}
 						if fs, ok := constStringVal(x.Call.Args[0]); ok {
 							sp := parseFormat(fs)
 							for _, l := range sp.Literal {
@@ -339,7 +347,7 @@ func ruleSQLVOCAB(c *Ctx, r *Report) {
 						}
 					}
 				case *ssa.BinOp:
-					if isStringType(x.Type()) {
+					if isStringType(x.Type()) && !onlyErrorText(x, 0) {
 						for _, op := range []ssa.Value{x.X, x.Y} {
 							if s, ok := constStringVal(op); ok {
 								lits[s] = c.instrPos(in)
@@ -2138,4 +2146,75 @@ func ruleRANGESEP(c *Ctx, r *Report) {
 		}
 	}
 	r.floor(rule, "range text splits examined", n, 2)
+}
+
+// onlyErrorText: every use of the string value is the construction of an error message (errors.New,
+// fmt.Errorf — directly, through further concatenation, or as a variadic operand): it is not SQL text.
+func onlyErrorText(v ssa.Value, depth int) bool {
+	if depth > 6 || v.Referrers() == nil {
+		return false
+	}
+	n := 0
+	errCall := func(in ssa.Instruction) bool {
+		call, ok := in.(*ssa.Call)
+		if !ok {
+			return false
+		}
+		switch calleeFullName(call) {
+		case "errors.New", "fmt.Errorf":
+			return true
+		}
+		return false
+	}
+	for _, ref := range *v.Referrers() {
+		switch u := ref.(type) {
+		case *ssa.DebugRef:
+			continue
+		case *ssa.Call:
+			if !errCall(u) {
+				return false
+			}
+		case *ssa.BinOp:
+			if !isStringType(u.Type()) || !onlyErrorText(u, depth+1) {
+				return false
+			}
+		case *ssa.Phi:
+			if !onlyErrorText(u, depth+1) {
+				return false
+			}
+		case *ssa.MakeInterface:
+			if !onlyErrorText(u, depth+1) {
+				return false
+			}
+		case *ssa.Store:
+			ia, ok := u.Addr.(*ssa.IndexAddr)
+			if !ok || u.Val != v {
+				return false
+			}
+			a, ok := ia.X.(*ssa.Alloc)
+			if !ok || a.Referrers() == nil {
+				return false
+			}
+			for _, r2 := range *a.Referrers() {
+				switch w := r2.(type) {
+				case *ssa.IndexAddr, *ssa.DebugRef:
+				case *ssa.Slice:
+					if w.Referrers() == nil {
+						return false
+					}
+					for _, r3 := range *w.Referrers() {
+						if _, isDbg := r3.(*ssa.DebugRef); !isDbg && !errCall(r3) {
+							return false
+						}
+					}
+				default:
+					return false
+				}
+			}
+		default:
+			return false
+		}
+		n++
+	}
+	return n > 0
 }
